@@ -135,6 +135,15 @@ def check_round(case, state):
     Z = float(state.normalization(space))
     tr = float(dlib.sum())
     require(abs(Z - tr) <= REF_RTOL * tr, "trace!=normalization", "trace of rho differs from normalization()", Z=Z, trace=tr)
+    # precision tier (see c01.py): product-form reference with torch's softplus -> agreement to ~1e-11
+    with R.library_precision():
+        ref_p = R.rho_ref(am, ph, V)
+        pv_p = torch.exp(R.log_prob_visible(am, V))
+    sc_p = torch.sqrt(ref_p.diagonal().real[:, None] * ref_p.diagonal().real[None, :])
+    require(bool(torch.all((rho - ref_p).abs() <= 1e-11 * sc_p + 1e-300)), "precision:rho", "rho is not accurate to double precision (1e-11 of sqrt(rho_ii rho_jj) against the product-form reference)",
+            worst=float(((rho - ref_p).abs() / (sc_p + 1e-300)).max()))
+    require(bool(torch.all((prob - pv_p).abs() <= 1e-11 * pv_p)) and abs(Z - float(pv_p.sum())) <= 1e-11 * float(pv_p.sum()), "precision:probability/normalization",
+            "probability / normalization are not accurate to double precision", worst=float(((prob - pv_p).abs() / pv_p).max()))
 
     # call forms
     i1, i2, i3 = case["i1"], case["i2"], case["i3"]
@@ -146,6 +155,14 @@ def check_round(case, state):
     rect = R.lib_to_c(state.rho(v, space[i3]))
     require(rect.shape == (len(i1), len(i3)), "callform:rect-shape", f"rho(v, vp) rectangular has shape {tuple(rect.shape)}")
     require(tol(rect, rho[i1][:, i3], scale[i1][:, i3]), "callform:rect", "rho(v, vp) on sub-batches differs from the block of the full matrix")
+    # the caller's batch buffers re-used for other configurations (filled in place between two calls): the second call sees the new contents
+    bufv, bufw = space[i1].clone(), space[i3].clone()
+    rb1 = R.lib_to_c(state.rho(bufv, bufw))
+    bufv.copy_(space[i2])
+    rb2 = R.lib_to_c(state.rho(bufv, bufw))
+    pb2 = R.lib_to_c(state.rho(bufv, space[i1].clone(), expand=False))
+    require(tol(rb1, rho[i1][:, i3], scale[i1][:, i3]) and tol(rb2, rho[i2][:, i3], scale[i2][:, i3]) and tol(pb2, rho[i2, i1], scale[i2, i1]), "callform:buffer-refilled-in-place",
+            "rho(v, vp) with the caller's batch tensor refilled in place between two calls does not follow the tensor's current contents")
     single = state.rho(space[i1[0]], space[i2[0]])
     require(tuple(single.shape) == (2,), "callform:single-shape", f"rho of two 1-D states has shape {tuple(single.shape)}, expected (2,)")
     require(abs(complex(R.lib_to_c(single)) - complex(rho[i1[0], i2[0]])) <= 1e-9 * float(scale[i1[0], i2[0]]) + 1e-300,
